@@ -276,7 +276,7 @@ Proof.
       apply Good_heap_append; [|exact Ra | intros ? Hx; discriminate].
       apply Good_heap_append; [split; [exact Ka | split; [exact Ca | exact Hr1]] | exact Brp|].
       intros g' Hx. injection Hx as <-. exact Ra.
-    + injection H as <- <-.
+    + destruct gs as [|g2 gs2]; [|discriminate]. injection H as <- <-.
       apply Good_heap_append; [split; [exact Hk1 | split; [exact Hc1 | exact Hr1]] | | intros ? Hx; discriminate].
       apply Bg. cbn. auto.
   - (* ensure *)
